@@ -269,10 +269,32 @@ func nextPrime(x *big.Int) *big.Int {
 	if p.Bit(0) == 0 {
 		p.Add(p, big.NewInt(1))
 	}
-	for !p.ProbablyPrime(20) {
+	for {
+		// composite candidates fall at the small-prime and base-2 stages; only survivors get the full test
+		if p.ProbablyPrime(0) && p.ProbablyPrime(20) {
+			return p
+		}
 		p.Add(p, big.NewInt(2))
 	}
-	return p
+}
+
+// bigPrimes: a 1536-bit and a 2048-bit prime per process (products above 2048 bits for the Fermat lint).
+var (
+	bigPrimeOnce sync.Once
+	bigPrimeList []*big.Int
+)
+
+func bigPrimes() []*big.Int {
+	bigPrimeOnce.Do(func() {
+		shard, _ := stats.Shard()
+		for _, bits := range []int{1536, 2048} {
+			x := new(big.Int).Lsh(big.NewInt(1), uint(bits-1))
+			x.Add(x, new(big.Int).Lsh(big.NewInt(int64(1000003*(shard+1))), uint(bits/2)))
+			x.Add(x, big.NewInt(int64(verifSeed()*7919+12345)))
+			bigPrimeList = append(bigPrimeList, nextPrime(x))
+		}
+	})
+	return bigPrimeList
 }
 
 func drawBig(rt *rapid.T, bits int, lbl string) *big.Int {
@@ -418,7 +440,40 @@ func TestC16(t *testing.T) {
 		base := co.Certs[bases[rapid.IntRange(0, len(bases)-1).Draw(rt, "base")]]
 		var n *big.Int
 		how := ""
-		switch rapid.IntRange(0, 5).Draw(rt, "nkind") {
+		switch rapid.IntRange(0, 7).Draw(rt, "nkind") {
+		case 6, 7:
+			// bit patterns: machine words that are all ones, nearly all ones, zero or a lone top bit, between
+			// random words (carry / overflow in word-wise arithmetic); optionally times a small prime
+			words := rapid.IntRange(16, 48).Draw(rt, "words")
+			n = new(big.Int)
+			for w := 0; w < words; w++ {
+				var x uint64
+				switch rapid.IntRange(0, 5).Draw(rt, "wordkind") {
+				case 0:
+					x = ^uint64(0)
+				case 1:
+					ones := ^uint64(0)
+					x = ones << uint(rapid.IntRange(1, 20).Draw(rt, "lowzeros"))
+				case 2:
+					ones := ^uint64(0)
+					x = ones<<20 | rapid.Uint64Range(0, 1<<20-1).Draw(rt, "lowbits")
+				case 3:
+					x = 0
+				case 4:
+					x = 1 << 63
+				default:
+					x = rapid.Uint64().Draw(rt, "word")
+				}
+				n.Lsh(n, 64)
+				n.Or(n, new(big.Int).SetUint64(x))
+			}
+			n.SetBit(n, words*64-1, 1)
+			n.SetBit(n, 0, 1)
+			how = "word-patterns"
+			if rapid.IntRange(0, 2).Draw(rt, "timesprime") == 0 {
+				n.Mul(n, big.NewInt(smallPrimes[rapid.IntRange(1, len(smallPrimes)-1).Draw(rt, "sp")]))
+				how = "word-patterns-times-small-prime"
+			}
 		case 0:
 			th := rapid.SampledFrom([]int{1024, 2048, 3072}).Draw(rt, "th")
 			n = drawBig(rt, th+rapid.IntRange(-1, 1).Draw(rt, "d"), "n")
@@ -460,11 +515,23 @@ func TestC16(t *testing.T) {
 		cliConfigMatrix(t, rec, cli, stats.Scale(2, 6), fermatLint)
 	}
 	cliBudget := stats.Scale(12, 400)
+	bigBudget := stats.Scale(2, 40)
 	rapidRun(t, "fermat", perShard(stats.Scale(6000, 150000)), func(rt *rapid.T) {
 		base := co.Certs[bases[rapid.IntRange(0, len(bases)-1).Draw(rt, "base")]]
 		var p, q *big.Int
 		how := ""
-		switch rapid.IntRange(0, 3).Draw(rt, "fk") {
+		fk := rapid.IntRange(0, 3).Draw(rt, "fk")
+		if bigBudget > 0 && rapid.IntRange(0, 40).Draw(rt, "bigmod") == 0 {
+			fk = 9
+		}
+		switch fk {
+		case 9: // moduli above 2048 bits: a 1536- or 2048-bit prime and a neighbour at a distance aimed at 0..250 rounds
+			bigBudget--
+			p = bigPrimes()[rapid.IntRange(0, 1).Draw(rt, "bigp")]
+			r := rapid.IntRange(0, 250).Draw(rt, "aim")
+			d := new(big.Int).Sqrt(new(big.Int).Mul(big.NewInt(int64(8*r)), p))
+			q = nextPrime(new(big.Int).Add(p, new(big.Int).Add(d, big.NewInt(2))))
+			how = "close-big-primes"
 		case 0, 1: // small primes whose distance decides the round count
 			pb := rapid.IntRange(24, 48).Draw(rt, "pbits")
 			p = nextPrime(drawBig(rt, pb, "p"))
